@@ -59,3 +59,28 @@ pub fn wal_dump(args: &Args) {
     }
     println!("{}", serde_json::to_string(&out).expect("json"));
 }
+
+/// `vh gossip-frames --n N`: N length-prefixed gossip frames exactly as the production gossip loop puts them on the wire
+/// (GossipMessage::serialize + 4-byte big-endian length), each a DeltaBatch with one string update; for the end-to-end leg that
+/// plays a gossip peer against the real server binary. Output: JSON [{key, value, hex}].
+pub fn gossip_frames(args: &Args) {
+    use redis_sim::redis::SDS;
+    use redis_sim::replication::gossip::GossipMessage;
+    use redis_sim::replication::lattice::{LamportClock, ReplicaId};
+    use redis_sim::replication::state::{ReplicatedValue, ReplicationDelta};
+    let n = args.get_u64("n", 20);
+    let src = ReplicaId::new(args.get_u64("replica", 9));
+    let mut out: Vec<Value> = vec![];
+    for i in 0..n {
+        let pad = [0usize, 1, 7, 100, 1400, 3000, 70_000][(i % 7) as usize];
+        let key = format!("gk{}", i);
+        let value = format!("gv{}{}", i, "x".repeat(pad));
+        let d = ReplicationDelta::new(key.clone(), ReplicatedValue::with_value(SDS::from_str(&value), LamportClock { time: 1000 + i, replica_id: src }), src);
+        let msg = GossipMessage::new_delta_batch(src, vec![d], 5000 + i);
+        let data = msg.serialize().expect("serialize");
+        let mut framed = (data.len() as u32).to_be_bytes().to_vec();
+        framed.extend_from_slice(&data);
+        out.push(json!({"key": key, "value": value, "hex": framed.iter().map(|b| format!("{:02x}", b)).collect::<String>()}));
+    }
+    println!("{}", serde_json::to_string(&out).expect("json"));
+}
